@@ -269,6 +269,20 @@ func (fv *FV) applyContract(st *State, call *ast.CallExpr, fc *FuncContract, sel
 			paths[fc.Params[i]] = fv.lvalue(st, stripParens(u.X)) // &x: the callee may modify x
 		}
 	}
+	for i, a := range call.Args {
+		if lit, ok := stripParens(a).(*ast.FuncLit); ok {
+			ord := fv.litOrdinal(lit)
+			pname := "?"
+			if i < len(fc.Params) {
+				pname = fc.Params[i]
+			}
+			if fv.fc.Lits[ord] != nil {
+				fv.note("function literal " + ord + " handed to " + fv.p.funcDisplayName(fc) + " as " + pname + ": verified against its own `lit " + ord + "` contract; that this contract refines the callee's fnparam contract is by inspection")
+			} else {
+				fv.note("ASSUMED function literal " + ord + " handed to " + fv.p.funcDisplayName(fc) + " as " + pname + " satisfies the callee's fnparam contract; its body is not examined here and its writes to captured variables are not modelled")
+			}
+		}
+	}
 	args := fv.evalArgs(st, call, sig)
 	if recvIsPath {
 		evalRecv()
@@ -729,4 +743,22 @@ func (fv *FV) constDispatch(st *State, call *ast.CallExpr, callee *types.Func, s
 	}
 	fv.note("interface method " + callee.FullName() + " dispatched over the closed sum of implementations (each returns a constant)")
 	return []Term{fv.bind(st, res, callee.Name())}, true
+}
+
+
+// litOrdinal: the 1-based source-order ordinal of a function literal inside the function under verification.
+func (fv *FV) litOrdinal(lit *ast.FuncLit) string {
+	n, found := 0, ""
+	if fv.fc.Decl != nil && fv.fc.Decl.Body != nil {
+		ast.Inspect(fv.fc.Decl.Body, func(nd ast.Node) bool {
+			if fl, ok := nd.(*ast.FuncLit); ok {
+				n++
+				if fl == lit {
+					found = fmt.Sprint(n)
+				}
+			}
+			return true
+		})
+	}
+	return found
 }
